@@ -17,8 +17,8 @@ ASSUMPTIONS = [
     "F3 (PDUv0Rx rejected legacy-padded GMSK bursts) is repaired by a fix commit and the fixed definition is what is modelled; F11a/F11b are recorded known findings with proved negations",
 ]
 MANIFEST = {
-    "text": "Lean 4 theorems over the six regenerated TRXD PDU definitions: well-formedness and the live offset/mask derivation by kernel evaluation, round trip for every class (instances of C16, any value, any number of batched sub-PDUs, with an in-range v2 value for every k), burst length by modulation for all codes, NOPE carries no burst, wrong version nibble rejected for every datagram, reserved bit ignored on receipt and sent as zero, enc v = documented layout for v0/v1 Tx/Rx (all field values), every v0/v1 message-codec datagram accepted with identical field values (legacy padding included after the F3 fix; F11a/F11b as _partial with proved negation). Real classes are compared with the model on message-codec output and random values; an independent oracle checks the property on the real code.",
-    "note": "trusted: Lean kernel (+propext, Classical.choice, Quot.sound), gen/trxd_proto.py + lib/codecdef.py introspection (the tabulated lambdas are finite functions on the tabulated domain only), the differential harness; layout theorems are proved for v0/v1, the v2 layout is checked by the oracle against a Python transcription of the documented structure only",
+    "text": "Lean 4 theorems over the six regenerated TRXD PDU definitions: well-formedness and the live offset/mask derivation by kernel evaluation, round trip for every class (instances of C16, any value, any number of batched sub-PDUs, with an in-range v2 value for every k), burst length by modulation for all codes, NOPE carries no burst, wrong version nibble rejected for every datagram, reserved bit ignored on receipt and sent as zero, enc v = documented layout for v0/v1 Tx/Rx and for v2 Rx/Tx with any list of batched sub-PDUs (all field values), every v0/v1 message-codec datagram accepted with identical field values (legacy padding included after the F3 fix; F11a/F11b as _partial with proved negation). Real classes are compared with the model on message-codec output and random values; an independent oracle checks the property on the real code.",
+    "note": "trusted: Lean kernel (+propext, Classical.choice, Quot.sound), gen/trxd_proto.py + lib/codecdef.py introspection (the tabulated lambdas are finite functions on the tabulated domain only), the differential harness; msgcodec_accepted is about the Spec layout, the identity real gen_msg() octets = Spec layout is a differential check, not a theorem",
     "technique": "Lean 4 proof (instances of the C16 theorems, decide on regenerated definitions, simp-evaluation of the model on symbolic field values) + differential correspondence on the real PDU classes",
     "design_ref": "DESIGN.md section 5 C17",
 }
